@@ -230,6 +230,8 @@ def r2(ctx, chk):
                         and ast.unparse(n.targets[0]) == c.args[0].id]
                 if any(__import__("re").search(expect, d) for d in defs):
                     ok = True
+            elif c.args and __import__("re").search(expect, ast.unparse(c.args[0])):
+                ok = True           # the list of missing parts written out in the argument itself
         chk.ob(rule, "%s hands the filter the parts that are really missing (%s)" % (f.qual, expect), ok,
                "the filter is called with something else than the computed missing parts",
                key={"function": fk, "construct": "filter argument"}, file=f.file, function=f.qual, line=f.node.lineno)
